@@ -109,6 +109,21 @@ def main(argv=None):
                         inconclusive.append(f"{q.name}: solver counterexample did not reproduce natively ({rep.get('why', 'playback test passed')})")
                 elif r.status == "pass" and q.expect == "known" and q.known_id in known:
                     log(f"[note] known finding {q.known_id} no longer reproduces (harness {q.name} passes)")
+        # witness validation: the reachability witness (kani::cover) of the cheapest passing query is turned into a concrete native test of
+        # the same harness body and executed against the real code (dev and release settings): it must run through without a panic
+        passing = sorted([r for r in results if r.status == "pass"], key=lambda r: r.wall_s)
+        if runner and passing and not args.only:
+            w = passing[0]
+            try:
+                rep = runner.replay(w)
+            except Exception as e:
+                rep = {"why": repr(e)}
+            if rep.get("dev", {}).get("passed") and rep.get("release", {}).get("passed"):
+                w.witness = {"query": w.query.name, "test": rep.get("test_name"), "native": "passed (dev and release settings)"}
+            elif rep.get("reproduced"):
+                inconclusive.append(f"{w.query.name}: the reachability witness of this passing query panics when executed natively ({rep.get('dev', {}).get('panic', '')})")
+            else:
+                log(f"[note] no native witness for {w.query.name}: {rep.get('why', 'playback inconclusive')}")
         if m_future is not None:
             try:
                 m_results, m_viol, m_inc = m_future.result()
